@@ -1,6 +1,6 @@
 CHECK = {'lean_module': 'MidnightZK.Props.C01',
  'harness': 'h-c01',
- 'translators': [],
+ 'translators': ['c01_transcript'],
  'level': 'proof',
  'technique': 'Lean 4 proofs over executable models of the prover/verifier control flow: Fiat-Shamir schedule agreement for '
               'every constraint-system shape and proving configuration; order of the y-combination (prover loop nest = '
@@ -17,7 +17,14 @@ CHECK = {'lean_module': 'MidnightZK.Props.C01',
               'the expression compiler is driven through EVERY branch of add_expression on both operand positions by a table '
               'of expression shapes (family gate kind Shapes) and the degree bookkeeping (required_degree / degree()) is '
               'proved to cover every identity class and exercised by a mixed-degree two-column lookup_any that is the only '
-              'constraint of the top degree',
+              'constraint of the top degree; ROUND 6: the row->polynomial lift of ARBITRARY gate expressions over an abstract '
+              'field (gatePoly over rotated column polynomials = Expr.eval in the row environment at every node), natDegree '
+              'bounds of the gate / permutation / lookup / trash identity POLYNOMIALS by a small degree calculus, and the '
+              'closed assembly honest_verifies_rows (a whole constraint system given by rows, no polynomial-level hypothesis); '
+              'a translator (translators/c01_transcript.py) regenerates the textual order of the transcript call sites of '
+              'prover.rs / verifier.rs, proved to be the segment order of the schedules for every shape; get_rotation_idx '
+              'mirrored and specified; the compiled lookup and trash graphs of Evaluator::new hooked and compared with the '
+              'Lean compiler',
  'rule': 'circuit-family members (random gate kinds/degrees/rotations, lookups, copy constraints, phases, unblinded columns, '
          'trash arguments) and C01-owned stress shapes (gate degree 3..9 = 2..8 quotient pieces, unblinded column queried at '
          '-1/0/+1, third-phase column never queried, lookup_any into an advice column and into an instance column, 3 and 4 '
@@ -40,7 +47,20 @@ CHECK = {'lean_module': 'MidnightZK.Props.C01',
          '6, the only constraint of that degree in the member); LookupKind::NoZero = a table without a zero row whose filler '
          'is 5; 4 Shapes members + one with all groups + 4 MixedDeg/NoZero members + 6 (quick) sampled extended members; stats '
          'add_expression-branch:* = how often each of the 30 branches (incl. reuse of a constant / rotation / calculation) was '
-         'taken by the gate polynomials of the graph lines (WARNING:add_expression-branch-never-hit:* if one is not)',
+         'taken by the gate polynomials of the graph lines (WARNING:add_expression-branch-never-hit:* if one is not); ROUND 6: '
+         'lgraph = per lookup of every proving key the WHOLE compiled graph of Evaluator::new (input expressions, Horner with '
+         'theta, table expressions compiled into the same graph, second Horner, + gamma, + beta, product; constants and '
+         'rotations included) vs Graph.renderLookup; tgraph = per trash argument the compiled constraint expressions + Horner '
+         'with the trash challenge vs Graph.renderTrash; rotidx = get_rotation_idx (hook verif_get_rotation_idx) on domains '
+         '(k, extended_k) in {(3,3),(3,5),(4,6),(6,9),(10,13)} x rows {0, 1, middle, last-1, last} x rotations {0, +-1, +-2, '
+         '+-3, +-(n-1), +-n, +-(n+1), 5n, -5n-1} + 12 random per domain (classes rotidx:inside / wrap-below / wrap-above '
+         'counted); gaterows = the gate expressions of the dumped constraint system evaluated by the Lean row semantics of '
+         'honest_verifies_rows (Expr.eval in Rows.rowEnv: query (col, rot) reads cell (i+rot) mod n) on the REAL table of the '
+         'proof, blinding rows included -> the (gate, row) pairs that are non-zero (none on an honest table); gaterows-altered '
+         '= the same with ONE advice cell replaced: rows 0, n-1 (wrap-around), the last usable row (the advice column that '
+         'makes a gate fail if there is one) and two cells found by search among random (column, row) pairs; impl answer = an '
+         'independent Rust evaluation (Table::eval) on the altered table; counters gaterows-altered:flagged / '
+         'no-gate-reads-the-cell',
  'explanation': "Theorems: schedule_agree (verifier replays the prover's transcript operations for every shape/configuration); "
                 'identity_order_agree / horner_sections; compile_correct; quotient_blind_recombine / chunks_recombine; '
                 'perm_product_complete (with perm_rule_rows, perm_last_value / perm_last_complete, '
@@ -91,21 +111,64 @@ CHECK = {'lean_module': 'MidnightZK.Props.C01',
                 'perm_identities_vanish_on_domain: under the hypotheses of perm_product_complete the permutation identity '
                 'POLYNOMIALS (column polynomials of the values / sigma labels / honest running products, rotations, delta^c*X, '
                 'Lagrange-basis l_0/l_last/l_blind) vanish on the whole domain - hvanish of honest_verifies_algebraic for the '
-                'permutation class.',
+                'permutation class. NEW (round 6): gate_polys_vanish_iff_rows (any field: the gate polynomials vanish on the '
+                'whole domain iff every gate expression evaluates to 0 in the row environment of every row - the Expr.eval of '
+                'compile_correct, queries reading cell (i+rot) mod n); identity_polys_degree_bounds (natDegree, in units of '
+                'n-1: gate <= Expression::degree, permutation <= chunk_len+2 for every layout, lookup <= max(4, 2+deg a+deg s) '
+                'with a, s the compressed input/table expression POLYNOMIALS, trash <= max(deg constraints, deg q + 1)); '
+                'compressed_expression_poly_spec (compress_expressions over gate polynomials: row value = row-wise '
+                'compression, degree = max); honest_verifies_rows (CLOSED form: gates zero on every row + copy permutation '
+                'multiset hypothesis + per lookup permute_expression_pair returned Ok on the value vectors of a, s + per trash '
+                'q*e = 0 on every row, degrees <= degree() = D >= 3, bf+2 <= n => with the vectors the model prover computes, '
+                'the identity list gates ++ permutation ++ lookups ++ trash is divisible after the y-combination, the D-1 '
+                'blinded pieces recombine and hCheck accepts for every y, x off the domain, blinding); rotation_idx_spec / '
+                'rotation_idx_point (get_rotation_idx = (idx + rot*scale) mod isize: in range, congruent, identity at rotation '
+                '0, additive in the rotation; on the field side w_ext^result = w_ext^idx * (w_ext^scale)^rot); '
+                'schedule_is_skeleton + transcript_order_is_schedule_skeleton (the token list regenerated from prover.rs / '
+                'verifier.rs - squeeze:<variable>, write/read/common, call:<callee> in textual order per function - equals the '
+                'call-site table of Model/C01/Skeleton.lean whose segments, runs collapsed, are the 22 segments of '
+                'proverSchedule / verifierSchedule in order, for every shape). The transcript-order tie is deliberately tight: '
+                'renaming a challenge variable or a callee that receives the transcript changes a token and the table in '
+                'Skeleton.lean has to follow; adding or removing arguments of a callee does not fire (the arity is only kept '
+                'to tell the two p.evaluate of finalise_proof apart). selector_gates_zero_on_every_row (q*G with q a fixed '
+                'column at the current row: zero on the usable rows + selector zero on the unusable rows => zero on every row, '
+                'nothing assumed about advice on the blinding rows - the form in which real circuits meet hgsat of '
+                'honest_verifies_rows). argument_transcript_sites (table argFns regenerated from lookup/, permutation/, '
+                'trash/, vanishing/ x prover.rs, verifier.rs: per function the operations and the NAMES - argument of a write, '
+                'for a loop variable the items chained into the loop; variable bound by a read -; pinned against Skel.argOps, '
+                'and proved: commit_permuted writes what read_permuted_commitments reads, the five lookup evaluations are '
+                'written and read in the order of lookupEvalNames, permutation eval / next_eval / last_eval, trash and '
+                'vanishing likewise). This part is deliberately tight: renaming one of these variables on one side only fires. '
+                'The row environment of these theorems is the executable Rows.rowEnv (Model/C01/GateRows.lean, Lift.rowEnv is '
+                'an abbreviation of it): the driver runs it on every real table (gaterows lines) and on tables with one '
+                'altered advice cell, where it must flag exactly the (gate, row) pairs an independent Rust evaluation flags. '
+                'degree_hypotheses_from_constraint_system (for every dumped constraint system, over every field: with D = the '
+                'mirrored ConstraintSystem::degree() the degree hypotheses of honest_verifies_rows hold - D >= 3, every gate '
+                'polynomial, every lookup with da / ds the folds of lookup.rs: required_degree, every trash argument with a '
+                'column selector; Lift.exprDeg = C02.Ids.exprDegree through ofC02F). rotation_idx_is_row_convention (the cell '
+                'Rows.rowEnv reads is get_rotation_idx at scale 1; on an extended domain of n*s points the index of the '
+                'rotated row is s times that row). compiled_graph_value_is_gate_poly_node (compile_correct chained with the '
+                'lift: what GraphEvaluator::evaluate returns for a gate on row i of the table, for every well-formed graph and '
+                'operand order, is the gate polynomial at w^i). gate_violations_empty_iff_rows (the executable check of the '
+                'gaterows lines reports nothing iff hgsat of honest_verifies_rows holds).',
  'trusted_base': ['commitments, pairing check and the hash inside the transcript are abstract in the model (events carry only '
                   'kind/type/tag); honest_verifies_algebraic reads a commitment as the polynomial it commits to (opening '
                   'completeness is C14)',
                   'the argument theorems are row-level: a polynomial in Lagrange form is identified with its value vector on '
                   'the domain, l_0/l_last/l_blind with the indicator of row 0 / row u / rows > u, rotation with a cyclic row '
-                  'shift; the lift to polynomials (colPoly / rotPoly / indPoly evaluated at w^i = row value) is proved for the '
-                  "permutation, lookup, trash and selector-gated identities, and used as the hypothesis 'vanishes on every "
-                  "row' of honest_verifies_algebraic for general gates",
+                  'shift; the lift to polynomials (colPoly / rotPoly / indPoly / gatePoly evaluated at w^i = row value) is '
+                  'PROVED for every class including arbitrary gate expressions over any field (gate_polys_vanish_iff_rows) and '
+                  'assembled in honest_verifies_rows',
                   'verif-hooks in midnight-proofs (thread-local observers: identity log, argument-vector log, '
                   'instance-evaluation log), ProvingKey::verif_derived_parts (fixed values, sigma labels), '
-                  'ProvingKey::verif_custom_gates_graph',
+                  'ProvingKey::verif_custom_gates_graph, ProvingKey::verif_argument_graphs (lookup / trash graphs), '
+                  'ProvingKey::verif_get_rotation_idx (repo commit eb256dc)',
                   "parallelize/rayon chunking inside the prover's loops is modelled by the sequential loop (chunk independence "
                   'is C12/C17); divide_by_vanishing_poly / extended_to_coeff (coset FFT) are specified as polynomial division '
-                  'by X^n-1 (FFT correctness is C12)'],
+                  'by X^n-1 (FFT correctness is C12)',
+                  'translators/c01_transcript.py: a lexical reading of prover.rs / verifier.rs (comments and test code '
+                  'removed; call sites located by the identifier `transcript`, the callee by parenthesis matching); textual '
+                  'order only - control flow (loops, branches) is the business of the recorded transcripts'],
  'assumptions': ['witness satisfies the circuit (by construction of the family; for the stress shapes also checked with the '
                  'mock checker); KZG completeness is C14',
                  "challenges outside the exceptional set: no denominator beta*sigma+gamma+v resp. (beta+A')(gamma+S') vanishes "
@@ -114,12 +177,11 @@ CHECK = {'lean_module': 'MidnightZK.Props.C01',
                  'invert().unwrap(); probability n/|F|)',
                  'Ord of the field is a linear order whose equal elements are identical (hypothesis LinOrd of the lookup '
                  'theorems)',
-                 'hdeg of honest_verifies_algebraic (every identity polynomial has degree < n + (n-1)*(degree-1)) is now '
-                 'PROVED for the gate polynomials (C02.gate_poly_degree_covered) and, in syntactic form (degree counted in '
-                 'units of a column polynomial), for every identity class (numerator_fits_quotient_pieces); the polynomial '
-                 'natDegree bound for the permutation / lookup / trash identity polynomials is not mechanised (their syntactic '
-                 'degrees are)'],
- 'level_text': 'Kernel-checked theorems (46 obligations): prover and verifier transcript schedules agree for all '
+                 'hdeg of honest_verifies_algebraic is now PROVED as natDegree bounds for every class '
+                 '(identity_polys_degree_bounds) and discharged inside honest_verifies_rows from degree bounds on the '
+                 'expressions (exprDeg g <= D, max 4 (2+da+ds) <= D, max de (dq+1) <= D, chunk_len = D-2), the numbers '
+                 'C02.degree_covers_identities / numerator_fits_quotient_pieces prove to be <= ConstraintSystem::degree()'],
+ 'level_text': 'Kernel-checked theorems (60 obligations): prover and verifier transcript schedules agree for all '
                "shapes/configurations (the place where the pinned tree rejected honest proofs); the prover's order of "
                "combining identities with y equals the verifier's for all shapes; the expression-graph compiler is correct; "
                'quotient split/blind/recombine; the permutation, lookup and trash arguments the honest prover constructs '
@@ -135,24 +197,40 @@ CHECK = {'lean_module': 'MidnightZK.Props.C01',
                'on every generated case; every branch of add_expression (both operand positions of every constant shortcut) is '
                'exercised by the compiled-graph comparison and by honest proofs; the degree bookkeeping is proved to cover '
                'every identity class (numerator_fits_quotient_pieces) and exercised by a mixed-degree lookup that alone '
-               'decides the number of quotient pieces',
- 'level_note': 'Trusted: Lean kernel, harness, driver, hooks. Abstract: group/pairing/hash. Still not mechanised: (1) the lift '
-               'from rows to polynomials is now proved for the PERMUTATION identities too (perm_identities_vanish_on_domain: '
-               "perm_product_complete + C02's permIdPolys lift) in addition to lookup, trash and selector-gated gates; for "
-               'ARBITRARY gate expressions the lift exists only over ZMod p on a concrete table '
-               '(C02.gate_identity_vanishes_on_domain_iff_rows), not over an abstract field, and the assembly still takes the '
-               'LIST of identity polynomials with hvanish as hypothesis (the per-class theorems discharge it class by class; '
-               'the concatenation over a whole constraint system is not stated); (2) the degree bound hdeg is proved for the '
-               'gate polynomials (C02.gate_poly_degree_covered) and syntactically for all classes '
-               '(numerator_fits_quotient_pieces), not yet as natDegree bounds of the permutation / lookup / trash identity '
-               'polynomials; (3) the probability bound for the exceptional challenge set; (4) lEvals mirrors '
-               "evaluate_identities' first lines but those are only observed through l_i_range and the identity values (no "
-               "direct hook on l_0/l_last/l_blind); the chopped-commitment scalars of as_terms and the prover's "
-               'Constructed::evaluate are modelled (choppedScalars, proverHReduce) and proved equal, but observed only through '
-               'proof acceptance. The argument models take sigma labels and cell values as inputs: that keygen produces sigma '
-               'labels which are a permutation of the identity labels is checked on every real case (multiset hypothesis), not '
-               'proved (C17/C02). Gates without a factor that vanishes on the unusable rows are outside the property: the mock '
-               'checker refuses them (ConstraintPoisoned) and the honest proof is rejected (shown on the real prover; Lean: '
-               'unselected_gate_not_divisible); only the custom-gates graph is hooked: the graphs add_expression builds for '
-               'lookup and trash expressions are observed through proof acceptance only',
+               'decides the number of quotient pieces; ROUND 6: the assembly is closed - honest_verifies_rows takes a whole '
+               'constraint system by ROWS (gate expressions zero on every row over any field, the copy-permutation multiset '
+               'hypothesis, permute_expression_pair = Ok, trash q*e = 0) with degree bounds on the expressions and concludes '
+               "that the verifier's check accepts, the row->polynomial lift (all classes, arbitrary gates) and the natDegree "
+               'bounds of all identity polynomials being theorems; the textual order of the transcript call sites of prover.rs '
+               '/ verifier.rs is regenerated on every run and proved to be the segment order of the schedules for every shape; '
+               'get_rotation_idx is mirrored, specified and compared incl. negative rotations and wrap-around; the compiled '
+               "lookup and trash graphs of every proving key equal the Lean compiler's output calculation by calculation; "
+               'selector-gated gates are proved to meet the every-row hypothesis from usable-row satisfaction alone '
+               '(selector_gates_zero_on_every_row); the argument files (lookup/permutation/trash/vanishing x prover/verifier) '
+               "are tokenised too and the prover's written elements are proved to be the verifier's read elements in the same "
+               'textual order (argument_transcript_sites)',
+ 'level_note': 'Trusted: Lean kernel, harness, driver, hooks, the lexical translator. Abstract: group/pairing/hash. What '
+               'remains outside honest_verifies_rows: (1) the exceptional challenges - hypotheses hdenP (no beta*sigma+gamma+v '
+               "= 0 on a usable row) and (beta+A')(gamma+S') != 0, and x^n != 1 - are stated, counted on every real case "
+               '(never observed), their probability is not bounded; (2) commitments and openings are abstract (a commitment is '
+               'read as the polynomial it commits to; C14); (3) that the table t, the permutation columns with their sigma '
+               'labels, and the lookup / trash expression polynomials of the theorem are what the real prover holds is the '
+               'business of the correspondence (argument vectors logged inside the prover, identity log, compiled graphs), and '
+               "that keygen's sigma labels are a permutation of the identity labels is checked on every real case (multiset "
+               'hypothesis), not proved (C17/C02); (4) the theorem asks for gates that are zero on EVERY row, blinding rows '
+               'included: selector_gate_blinding_rows gives this for selector-gated gates, gates without a factor vanishing on '
+               'the unusable rows are outside the property (mock checker: ConstraintPoisoned; honest proof rejected; Lean: '
+               "unselected_gate_not_divisible); (5) the identity polynomials of honest_verifies_rows use the model prover's "
+               'vectors (permProducts, lookupProduct, trashValues, validated against the vectors logged in the real prover) - '
+               'the blinding of advice columns is part of the table t (any values on the unusable rows); (6) lEvals mirrors '
+               "evaluate_identities' first lines but those are only observed through l_i_range and the identity values; the "
+               'chopped-commitment scalars of as_terms and Constructed::evaluate are modelled and proved equal, observed only '
+               'through proof acceptance; (7) get_rotation_idx is modelled on unbounded integers (i32 overflow would be a '
+               'panic under the harness profile, not a wrong index); compute_nu_poly as a whole (the coset loop nest over the '
+               'extended domain) is still a black box observed through the identity log and proof acceptance - its graphs '
+               '(custom gates, lookups, trash) and its index arithmetic are now tied; (8) the transcript translator sees '
+               'textual order per function, not control flow; the callee bodies in lookup/ permutation/ trash/ vanishing/ are '
+               'tokenised with the names of the written / read variables (argument_transcript_sites); that a NAME denotes the '
+               'same polynomial evaluation on both sides is not proved (it is what proof acceptance and the identity log '
+               'observe); multi_open / multi_prepare (C14) are not tokenised',
  'timeout': {'quick': 1200, 'thorough': 7200, 'search': 1800}}
